@@ -22,7 +22,10 @@ Init == PSysInit(Store(FALSE, FALSE), <<>>)
 Pool == { <<"rect", 5, 5, 15, 15>>,  <<"rect", 15, 15, 5, 5>>, <<"rect", 5, 5, 15, 20>>,
           <<"rect", 6, 5, 15, 15>>,  <<"rect", 0, 0, 20, 20>>,
           <<"circ", 10, 10, 5, 0>>,  <<"circ", 10, 10, 10, 0>>, <<"circ", 13, 14, 10, 0>>,
-          <<"circ", 10, 10, 7, 0>>,  <<"circ", 13, 14, 9, 0>>,  <<"circ", 10, 10, 0, 0>> }
+          <<"circ", 10, 10, 7, 0>>,  <<"circ", 13, 14, 9, 0>>,  <<"circ", 10, 10, 0, 0>>,
+          \* generous rectangles that miss the disc (10,10,5) on exactly one side
+          <<"rect", 0, 0, 30, 14>>,  <<"rect", 0, 6, 30, 30>>, <<"rect", 0, 0, 14, 30>>,
+          <<"rect", 6, 0, 30, 30>> }
 
 Ids == {"a", "b"}
 
